@@ -130,3 +130,11 @@ func specServableRange(r storage.ByteRange, size int64) bool {
 	}
 	return r.End == nil || *r.End > 0
 }
+
+// specSameOptStr: two optional strings carry the same value (both absent, or both present and equal).
+func specSameOptStr(a *string, b *string) bool {
+	if a == nil || b == nil {
+		return a == nil && b == nil
+	}
+	return *a == *b
+}
